@@ -608,6 +608,15 @@ def op_model(op: dict) -> dict:
                     res["function_imports"] = [[[o.domain, int(o.version)] for o in f.opset_import] for f in pm.functions]
         elif kind == "rewrite_proto":
             out = S["rewriter"].rewrite(proto).SerializeToString()
+        elif kind == "convert_pass":
+            # the SAME ConvertVersionPass object (one per target version) converts every model of the process
+            m = ir.serde.deserialize_model(proto)
+            passes = S.setdefault("CONVERT_PASSES", {})
+            tgt = int(op["target"])
+            if tgt not in passes:
+                passes[tgt] = S["vc"].ConvertVersionPass(target_version=tgt)
+            r = passes[tgt](m)
+            out = ser_ir(r.model) + b"|modified=%d" % int(bool(r.modified))
         elif kind == "convert":
             m = ir.serde.deserialize_model(proto)
             S["vc"].convert_version(m, int(op["target"]), fallback=bool(op.get("fallback", False)))
